@@ -343,6 +343,23 @@ def param_names(body):
     return ren
 
 
+def param_roles(body, roles=None):
+    """id -> role name for the parameters of a body, by *position* (`self` apart), so that renaming a
+    parameter changes nothing: roles[i] names the i-th non-self parameter (default p1, p2, ...)."""
+    ren = {}
+    i = 0
+    for p in body.params:
+        if p.get("k") != "PBind":
+            i += 0 if p.get("k") is None else 1
+            continue
+        if p["name"] == "self":
+            ren[str(p["id"])] = "self"
+            continue
+        ren[str(p["id"])] = roles[i] if roles and i < len(roles) else "p%d" % (i + 1)
+        i += 1
+    return ren
+
+
 def rewrite_term(t, old, new):
     if t == old:
         return new
@@ -794,6 +811,9 @@ class Walker:
         self.snap_defs = {}
         self.local_ty = {}
         self.opaque_names = {}   # local name -> term to bind instead of the initializer's value
+        self.opaque_ids = {}     # binding id (parameter or local) -> term to bind instead of its value
+        self.opaque_all = False  # every immutable binding stays a named variable; on_let(pattern, value) is told its value
+        self.on_let = None
         for p in body.params:
             if p.get("k") == "PBind" and (p.get("mut") or F.types[p["t"]].startswith("&mut")):
                 self.T.mut_locals.add(p["id"])
@@ -802,6 +822,9 @@ class Walker:
 
     def run(self):
         k = self.start.copy()
+        for p in self.b.params:
+            if p.get("k") == "PBind" and p["id"] in self.opaque_ids:
+                self.T.env[p["id"]] = self.opaque_ids[p["id"]]
         self.walk(self.b.body, k)
         return self
 
@@ -942,10 +965,16 @@ class Walker:
             self.local_ty[p["id"]] = self.F.types[p["t"]]
             if p.get("mut") or self.F.types[p["t"]].startswith("&mut"):
                 self.T.mut_locals.add(p["id"])
-            if p["name"] in self.opaque_names:
+            if p["id"] in self.opaque_ids:
+                self.T.env[p["id"]] = self.opaque_ids[p["id"]]
+            elif p["name"] in self.opaque_names:
                 self.T.env[p["id"]] = self.opaque_names[p["name"]]
             elif term is None:
                 self.T.env.pop(p["id"], None)
+            elif self.opaque_all and not p.get("mut") and not self.F.types[p["t"]].startswith("&") and term[0] not in ("var", "int", "def", "field"):
+                self.T.env[p["id"]] = ("var", p["name"], p["id"])
+                if self.on_let is not None:
+                    self.on_let(p, term)
             else:
                 self.T.env[p["id"]] = term
         elif k == "PTuple" and term is not None and term[0] == "tup" and len(term) - 1 == len(p["ps"]):
